@@ -23,9 +23,9 @@ def Lv (t : List Byte) (n : Nat) (s : St) : Prop :=
   (s.l.loaded = false → s.l.pos ≤ n)
 
 /-- latched -/
-def Ld (t : List Byte) (n : Nat) (s : St) : Prop := Lv t n s ∧ s.l.loaded = true
+def Ld_d0 (t : List Byte) (n : Nat) (s : St) : Prop := Lv t n s ∧ s.l.loaded = true
 /-- latched on a byte that is not the NUL -/
-def Tk (t : List Byte) (n : Nat) (s : St) : Prop := Ld t n s ∧ s.l.cur ≠ 0
+def Tk (t : List Byte) (n : Nat) (s : St) : Prop := Ld_d0 t n s ∧ s.l.cur ≠ 0
 
 /-- the text `t[0..n)` ends with a number byte, or with `/` when comments are enabled -/
 def Dang (cfg : Cfg) (t : List Byte) (n : Nat) : Prop :=
@@ -36,7 +36,7 @@ def Fin (cfg : Cfg) (t : List Byte) (n : Nat) (okP : St → Prop) : Code → St 
   | .ok, s => okP s
   | .incomplete, s => s.l.pos = n + 1
   | .empty, s => s.l.pos = n + 1
-  | .invalid, s => Ld t n s ∧ (s.l.cur = 0 → Dang cfg t n)
+  | .invalid, s => Ld_d0 t n s ∧ (s.l.cur = 0 → Dang cfg t n)
   | .tooDeep, s => Tk t n s
   | .noMemory, s => Lv t n s ∧ s.l.loaded = false
   | .fuel, _ => True
@@ -45,7 +45,7 @@ section
 variable {cfg : Cfg} {t : List Byte} {n : Nat} (hN : NulAt t n)
 include hN
 
-theorem Ld.pos_zero {s : St} (h : Ld t n s) (h0 : s.l.cur = 0) : s.l.pos = n + 1 := by
+theorem Ld_d0.pos_zero {s : St} (h : Ld_d0 t n s) (h0 : s.l.cur = 0) : s.l.pos = n + 1 := by
   obtain ⟨⟨_, h2, _⟩, hl⟩ := h
   obtain ⟨a, b, c⟩ := h2 hl
   rw [h0] at c
@@ -65,7 +65,7 @@ omit hN in
 theorem Lv.found {s : St} {b : Bool} (h : Lv t n s) : Lv t n { s with found := b } := h
 
 /-- `current()`: latched at or before the NUL -/
-theorem Lv.look {s : St} (h : Lv t n s) : Ld t n (cur s).2 ∧ (cur s).2.l.cur = (cur s).1 ∧ (cur s).2.found = s.found ∧
+theorem Lv.look {s : St} (h : Lv t n s) : Ld_d0 t n (cur s).2 ∧ (cur s).2.l.cur = (cur s).1 ∧ (cur s).2.found = s.found ∧
     (s.l.loaded = false → (cur s).2.l.pos = s.l.pos + 1) := by
   by_cases hl : s.l.loaded = true
   · rw [cur_loaded hl]; exact ⟨⟨h, hl⟩, rfl, rfl, fun h' => by rw [hl] at h'; cases h'⟩
@@ -103,7 +103,7 @@ theorem Lv.step {s : St} (h : Lv t n s) (hc : (cur s).1 ≠ 0) : Lv t n (mv (cur
 /-- `current()` returned the NUL -/
 theorem Lv.dead {s : St} (h : Lv t n s) (hc : (cur s).1 = 0) : (cur s).2.l.pos = n + 1 := by
   obtain ⟨a, b, _⟩ := Lv.look hN h
-  exact Ld.pos_zero hN a (by rw [b]; exact hc)
+  exact Ld_d0.pos_zero hN a (by rw [b]; exact hc)
 
 omit hN in
 theorem nz_of_beq' {c d : Byte} (h : (c == d) = true) (hd : d ≠ 0) : c ≠ 0 := by
@@ -148,7 +148,7 @@ theorem gh_skipLine : ∀ fuel s, Tk t n s → Fin cfg t n (Tk t n) (skipLine fu
       · exact ih _ h1
 
 omit hN in
-theorem Ld.byte {s : St} (h : Ld t n s) : 1 ≤ s.l.pos ∧ t[s.l.pos - 1]? = some s.l.cur := by
+theorem Ld_d0.byte {s : St} (h : Ld_d0 t n s) : 1 ≤ s.l.pos ∧ t[s.l.pos - 1]? = some s.l.cur := by
   obtain ⟨a, _, b⟩ := h.1.2.1 h.2
   exact ⟨a, b⟩
 
@@ -188,9 +188,9 @@ theorem gh_skipSpaces : ∀ fuel s, Lv t n s →
               obtain ⟨c', s'⟩ := r
               cases c' <;> first | exact ih _ hb.1.1 | exact hb
             · refine ⟨hY, fun h0 => ?_⟩
-              have hp := Ld.pos_zero hN hY h0
+              have hp := Ld_d0.pos_zero hN hY h0
               have hp2 := hYp (mv_loaded _)
-              obtain ⟨hx1, hx2⟩ := Ld.byte hX.1
+              obtain ⟨hx1, hx2⟩ := Ld_d0.byte hX.1
               have hxc : (cur s).2.l.cur = (cur s).1 := (Lv.look hN h).2.1
               have hpos : (cur s).2.l.pos = n := by
                 have : (mv (cur s).2).l.pos = (cur s).2.l.pos := rfl
@@ -301,7 +301,7 @@ def PrevNum (cfg : Cfg) (t : List Byte) (s : St) : Prop :=
   2 ≤ s.l.pos ∧ ∃ c, t[s.l.pos - 2]? = some c ∧ inNumber cfg c = true
 
 theorem gh_scanNumber : ∀ m acc s, Lv t n s →
-    Ld t n (scanNumber cfg m acc s).2 ∧ (PrevNum cfg t (scanNumber cfg m acc s).2 ∨ (scanNumber cfg m acc s).2 = (cur s).2) := by
+    Ld_d0 t n (scanNumber cfg m acc s).2 ∧ (PrevNum cfg t (scanNumber cfg m acc s).2 ∨ (scanNumber cfg m acc s).2 = (cur s).2) := by
   intro m
   induction m with
   | zero => intro acc s h; simp only [scanNumber]; exact ⟨(Lv.look hN h).1, Or.inr trivial⟩
@@ -318,7 +318,7 @@ theorem gh_scanNumber : ∀ m acc s, Lv t n s →
       rcases i2 with i2 | i2
       · exact i2
       · rw [i2]
-        obtain ⟨hx1, hx2⟩ := Ld.byte hX.1
+        obtain ⟨hx1, hx2⟩ := Ld_d0.byte hX.1
         have hxc : (cur s).2.l.cur = (cur s).1 := (Lv.look hN h).2.1
         have hp2 := (Lv.look hN h1).2.2.2 (mv_loaded _)
         have : (mv (cur s).2).l.pos = (cur s).2.l.pos := rfl
@@ -338,7 +338,7 @@ theorem gh_parseNumeric (s : St) (h : Tk t n s) :
   split <;> try exact i1.1
   · refine ⟨i1, fun h0 => ?_⟩
     rcases i2 with i2 | i2
-    · have hp := Ld.pos_zero hN i1 h0
+    · have hp := Ld_d0.pos_zero hN i1 h0
       obtain ⟨a, c, b1, b2⟩ := i2
       rw [hp] at a b1
       exact ⟨by omega, c, by simpa using b1, Or.inl b2⟩
